@@ -25,6 +25,9 @@ site: http://bugseng.com/products/ppl/ . */
 #include "globals_defs.hh"
 #include "Constraint_defs.hh"
 #include "Generator_defs.hh"
+#ifdef BUGSENG_PPL_VERIF
+#include "verif_hooks.hh"
+#endif
 
 namespace Parma_Polyhedra_Library {
 
@@ -46,6 +49,54 @@ unsigned int In_Assert::count = 0;
 
 #endif
 
+
+#ifdef BUGSENG_PPL_VERIF
+namespace Implementation {
+namespace Verif {
+unsigned long reach[PPL_VR_COUNT];
+const char* const reach_names[PPL_VR_COUNT] = {
+  "POLY_CONVERSION",
+  "POLY_SIMPLIFY",
+  "POLY_STRONG_MIN_CONS",
+  "POLY_STRONG_MIN_GENS",
+  "H79_WIDENING",
+  "BHRZ03_WIDENING",
+  "MIP_MERGE_SPLIT",
+  "MIP_PRICE_FLOAT",
+  "MIP_PRICE_EXACT",
+  "MIP_PRICE_TEXTBOOK",
+  "MIP_PIVOT",
+  "MIP_SOLVE_MIP",
+  "MIP_IS_MIP_SAT",
+  "PIP_ROW_SIGN",
+  "PIP_COMPAT_CHECK",
+  "PIP_GENERATE_CUT",
+  "GRID_CONV_G2C",
+  "GRID_CONV_C2G",
+  "GRID_SIMPLIFY_G",
+  "GRID_SIMPLIFY_C",
+  "COTREE_BIGGER",
+  "COTREE_REBALANCE",
+  "COTREE_REDISTRIBUTE",
+  "COTREE_SMALLER",
+  "BDS_CLOSURE",
+  "BDS_INCR_CLOSURE",
+  "BDS_REDUCTION",
+  "OCT_CLOSURE",
+  "OCT_INCR_CLOSURE",
+  "OCT_REDUCTION",
+  "BOX_PROPAGATE",
+  "DETERMINATE_MUTATE",
+  "POWERSET_OMEGA_REDUCE",
+  "BHRZ03_COMBINING_OK",
+  "BHRZ03_EVOLVING_POINTS_OK",
+  "BHRZ03_EVOLVING_RAYS_OK",
+  "BHRZ03_FALLBACK_H79",
+};
+void (*point_hook)(const char*) = 0;
+} // namespace Verif
+} // namespace Implementation
+#endif // defined(BUGSENG_PPL_VERIF)
 
 dimension_type
 check_space_dimension_overflow(const dimension_type dim,
